@@ -9,14 +9,14 @@ META = {
                   "producer => every wanted file present with identical token and accepted by the library; exit 0 of list/info => printed facts = library view) "
                   "over the matrix sub-command x input class x library verdict, plus a session model of mpq create/damage/extract/validate. TLC (A) checks the "
                   "matrix total / single-valued / non-vacuous for all 48 sub-commands and, on the session model, that a truthful tool makes create;extract the "
-                  "identity on tokens (and that the code as written deviates only by `validate` printing a failure and exiting 0); (B) enumerates every "
+                  "identity on tokens (and that the named deviation -- `validate` printing a failure and exiting 0, the code before 01748b8 -- is refuted and is the only untruthful run it adds); (B) enumerates every "
                   "sub-command of the 8 families x 10 input classes x option flag and the create/list/info/extract pipeline product; (C) the real binary is run as "
                   "a process on files made with the library's own writers (and damaged copies the library is asked about first); (D) TLC evaluates the "
                   "obligations on every recorded run.",
     "level_note": "Failure classes are relative to the library's verdict on the same bytes (same entry point as the sub-command where they differ: wmo convert). "
                   "Damage that the library tolerates creates no obligation. Only `validate` output is scanned for a printed failure verdict. Conversions are "
                   "checked for existence + re-parse of the output, not for semantic equality. mpq db (touches the user's database directory), dbd and "
-                  "completions are not exercised. Pipeline files are < 4 KB (single sector) so that C01's findings on multi-sector files do not resurface here. "
+                  "completions are not exercised. Archive members are <= VERIF_C20_MAXFILE bytes (default 4000: single sector, so that C01's findings on multi-sector files do not resurface here; set e.g. VERIF_C20_MAXFILE=100000 to lift it). Conversions along the representable paths listed in Cli.tla (RoundTripExact) are additionally converted back and compared by token; other paths only report DRIFT. "
                   "quick: one seed-rotated variant per file kind and 1/16 of the pipeline product; thorough: all variants, the whole product.",
     "technique": "TLA+ obligation matrix + session state machine model-checked with TLC; TLC-enumerated process runs of the real CLI; trace validation of the "
                  "recorded outcomes against the obligations",
@@ -34,7 +34,11 @@ def sig(b):
 
 def run(ctx, cases_override=None):
     ctx.mc("MC_Cli", cfg="MC_Cli", workers=4, timeout=600, heap="3g")
-    ctx.mc("MC_Cli", cfg="MC_Cli_ascoded", workers=4, timeout=600, heap="3g")
+    ctx.mc("MC_Cli", cfg="MC_Cli_deviant", workers=4, timeout=600, heap="3g")
+    rc, text = ctx.tlc("MC_Cli", "MC_Cli_refuted", workers=2, timeout=600, heap="2g", tag="refute-cli")
+    if "Invariant LastTruthful is violated" not in text:
+        raise core.ToolError("stage A: TLC did not refute LastTruthful for the deviation ValidateDeviant:\n" + core._tail(text, 15))
+    core.log("(A) MC_Cli/MC_Cli_refuted: deviation ValidateDeviant refuted as expected (LastTruthful violated)")
     if cases_override:
         cases, ncases = cases_override, sum(1 for _ in open(cases_override))
     else:
@@ -84,7 +88,7 @@ def run(ctx, cases_override=None):
         "exhaustive": False,
     }
     assumptions = ["the library's verdict on the same bytes defines 'malformed'", "files are made with the library's own writers (valid.rs)",
-                   "pipeline files are smaller than one sector"]
+                   "archive members are <= VERIF_C20_MAXFILE bytes (default 4000)"]
     return core.finish(ctx, "model_checking", cov, assumptions, res["bad"], sig_fn=sig, trace=trace)
 
 
